@@ -152,15 +152,17 @@ def js_c02(sh, ctx):
         d = notes(sh['ops'][a + 1]) if a + 1 < b else {}
         if d.get('wf') != '1' and not sh['cls'].startswith('corpus'):
             continue
-        view = None
+        view, last = None, None
         for i in range(a, b):
             op, g = sh['ops'][i], sh['go'][i]
             if op == 'VIEW p' and g.startswith('view '):
                 view = g[5:]
+            if op.startswith('SET p '):
+                view = None          # the values changed: wait for the next accessor snapshot
             if op == 'ENC p' and g.startswith('enc ') and view is not None:
-                hx = g.split()[1]
-                reqs.append((ci, i, hx, view))
-                break
+                last = (ci, i, g.split()[1], view)
+        if last:
+            reqs.append(last)
         res['keys'] = [setter_key(sh, a, b)]
     if reqs:
         ops = ''.join('SPEC %s\n' % r[2] for r in reqs)
@@ -629,17 +631,18 @@ def j_c17(sh, a, b):
 # ------------------------------------------------------------------------------------------ C18 / C19
 
 def j_c18(sh, a, b):
-    res = base(sh, a, b, {'STR', 'DUMP'})
+    res = base(sh, a, b, {'STR', 'DUMP', 'RDP'})
     out = {}
     for i in range(a, b):
         op = sh['ops'][i]
-        if op in ('STR a', 'STR b', 'DUMP a', 'DUMP b'):
+        if op in ('STR a', 'STR b', 'DUMP a', 'DUMP b', 'STR da', 'STR db', 'DUMP da', 'DUMP db'):
             out[op] = (i, sh['go'][i])
     for tag in ('STR', 'DUMP'):
-        if tag + ' a' in out and tag + ' b' in out:
-            res['evals'] += 1
-            if out[tag + ' a'][1] != out[tag + ' b'][1]:
-                res['concrete'].append(dict(line=out[tag + ' b'][0], what='%s output depends on the credential bytes' % tag))
+        for x, y, how in ((' a', ' b', 'API-built'), (' da', ' db', 'wire-decoded')):
+            if tag + x in out and tag + y in out:
+                res['evals'] += 1
+                if out[tag + x][1] != out[tag + y][1]:
+                    res['concrete'].append(dict(line=out[tag + y][0], what='%s output of %s CONNECT packets depends on the credential bytes' % (tag, how)))
     res['keys'] = [hashlib.md5('\n'.join(sh['ops'][a:b]).encode()).hexdigest()[:10]]
     res['hist'] = ['will=' + str(any('SetWill' in sh['ops'][i] for i in range(a, b)))]
     return res
@@ -703,10 +706,10 @@ def extra_c13(pid, tier, seed, harness, stats, h):
         h['log'](err)
         yield ('nofail', dict(property=pid, kind='obligation', what='cannot build the race-detector harness'))
         return
-    plan = [(None, 8, 60, 300)] if tier == 'quick' else [(1, 4, 200, 1500), (2, 8, 200, 1500), (4, 8, 200, 1500), (None, 16, 200, 3000)]
+    plan = [(None, 8, 60, 200), (None, 8, 60, 150)] if tier == 'quick' else [(1, 4, 200, 1500), (2, 8, 200, 1500), (4, 8, 200, 1500), (None, 16, 200, 3000)]
     total = 0
     for k, (procs, gor, iters, ncases) in enumerate(plan):
-        ops = subprocess.run([harness, 'gen', 'pkt', str(seed * 100 + k), str(ncases)], capture_output=True, text=True).stdout
+        ops = subprocess.run([harness, 'gen', 'shared' if k % 2 == 0 else 'pkt', str(seed * 100 + k), str(ncases)], capture_output=True, text=True).stdout
         bad = race_once(rh, ops, gor, iters, procs)
         total += ncases * gor * iters // max(1, ncases) * ncases // ncases
         stats['hist']['race-run gomaxprocs=%s goroutines=%d' % (procs or 'all', gor)] = ncases
@@ -739,9 +742,9 @@ def P(judge, quick, thorough, rule, **kw):
 
 
 PROPS = {
-    'C01': P(per_case(j_c01), [('pkt', 1600)], [('pkt', 40000), ('pkt+', 2000)],
+    'C01': P(per_case(j_c01), [('pkt', 1400), ('rewrite', 400)], [('pkt', 40000), ('pkt+', 2000), ('rewrite', 10000)],
              'one case = one in-domain packet built through the API; distinct by (type, set of setters used, boundary lengths hit); non-trivial = has at least the constructor and the round trip ran'),
-    'C02': P(js_c02, [('pkt', 1600)], [('pkt', 40000), ('pkt+', 2000)],
+    'C02': P(js_c02, [('pkt', 1400), ('rewrite', 400)], [('pkt', 40000), ('pkt+', 2000), ('rewrite', 10000)],
              'well-formed in-domain packets; the bytes WriteTo produced are parsed by the independent Spec.parse in Lean and compared with the API values; distinct as C01'),
     'C03': P(js_c03, [('frames', 1600)], [('frames', 40000), ('frames+', 1500)],
              'specification-style generated valid frames (all 15 types, property permutations, explicit zeros, short forms); distinct by (type, set of non-default fields)'),
@@ -757,7 +760,7 @@ PROPS = {
              'every cut offset of generated frames x EOF / transport error x delivery style; distinct = distinct (prefix, schedule, failure) lines'),
     'C09': P(per_case(j_c09), [('reject', 150)], [('reject', 3000), ('reject+', 300)],
              'valid frames mutated by the four rules (cut inside a field per the field map, fifth varint byte, boolean 2..255, undefined identifier); distinct = distinct mutated frames'),
-    'C10': P(per_case(j_c10), [('pkt', 1000), ('odd', 600)], [('pkt', 30000), ('odd', 10000), ('pkt+', 1000)],
+    'C10': P(per_case(j_c10), [('pkt', 900), ('odd', 500), ('rewrite', 400)], [('pkt', 30000), ('odd', 10000), ('pkt+', 1000), ('rewrite', 10000)],
              'API-built packets (in-domain and constructible-malformed, zero values) x writers (succeed / fail / accept k bytes); distinct as C01'),
     'C11': P(js_c11, [('pkt', 1200)], [('pkt', 30000)],
              'packets encoded repeatedly with read-only operations in between, in two processes; distinct as C01'),
